@@ -66,6 +66,10 @@ class AbstractOnlineUpdateVisitor(AbstractAstVisitor):
         self.stepped = dict()
         return super(AbstractOnlineUpdateVisitor, self).visitAst(ast, *args, **kwargs)
 
+    def not_started(self, node):
+        # pastified specifications: see LtlPastifier.started_late
+        return False
+
     def visitSpec(self, node, online_operator_dict, var_object_dict):
         sample_return = self.visit(node, online_operator_dict, var_object_dict)
         var_object_dict[node] = sample_return  #TODO subspec name is necessary as a key for var_object_dict.
@@ -89,7 +93,10 @@ class AbstractOnlineUpdateVisitor(AbstractAstVisitor):
         sample_left  = self.visit(node.children[0], online_operator_dict, var_object_dict)
         sample_right = self.visit(node.children[1], online_operator_dict, var_object_dict)
         operator = online_operator_dict[node.name]
-        sample_return = operator.update(sample_left, sample_right)
+        if self.not_started(node):
+            sample_return = sample_right
+        else:
+            sample_return = operator.update(sample_left, sample_right)
         self.results[node] = sample_return
         self.stepped[node.name] = sample_return
         return sample_return
@@ -99,7 +106,10 @@ class AbstractOnlineUpdateVisitor(AbstractAstVisitor):
             return self.reuse(node, online_operator_dict, var_object_dict)
         sample = self.visit(node.children[0], online_operator_dict, var_object_dict)
         op = online_operator_dict[node.name]
-        sample_return = op.update(sample)
+        if self.not_started(node):
+            sample_return = sample
+        else:
+            sample_return = op.update(sample)
         self.results[node] = sample_return
         self.stepped[node.name] = sample_return
         return sample_return
